@@ -269,28 +269,33 @@ def judge_int(ctx, c):
     j.value('unpack', ic, (code, nb, 'unpack'), call(lambda: b.unpack(code)), [v])
     pre, post = c.get('pre', ''), c.get('post', '')
     p0 = len(pre)
-    for cls in STREAMS:
+    for i, cls in enumerate(STREAMS):
         s = mkobj(cls, pre + cw + post, p0)
-        j.value('peek', ic, (code, nb, 'peek-' + cls), call(lambda: (s.peek(code), s.pos)), (v, p0))
-        j.value('read', ic, (code, nb, 'read-' + cls), call(lambda: (s.read(code), s.pos)), (v, p0 + n))
-        s.pos = p0
-        j.value('peeklist', ic, (code, nb, 'peeklist-' + cls), call(lambda: (s.peeklist([code]), s.pos)), ([v], p0))
-        j.value('readlist', ic, (code, nb, 'readlist-' + cls), call(lambda: (s.readlist(code), s.pos)), ([v], p0 + n))
+        if small or (v + i) % 2 == 0:
+            j.value('peek', ic, (code, nb, 'peek-' + cls), call(lambda: (s.peek(code), s.pos)), (v, p0))
+            j.value('read', ic, (code, nb, 'read-' + cls), call(lambda: (s.read(code), s.pos)), (v, p0 + n))
+            s.pos = p0
+        if small or (v + i) % 2 == 1:
+            j.value('peeklist', ic, (code, nb, 'peeklist-' + cls), call(lambda: (s.peeklist([code]), s.pos)), ([v], p0))
+            j.value('readlist', ic, (code, nb, 'readlist-' + cls), call(lambda: (s.readlist(code), s.pos)), ([v], p0 + n))
 
-    # ---- codeword + extra bits --------------------------------------------------------------
-    for extra in ('0', '1', '10'):
-        o = mkobj(util.CLASS_NAMES[(v + len(extra)) % 4], cw + extra)
-        ice = f'{code}:codeword+extra'
-        j.rejects('property-extra', ice, (code, nb, 'property-extra'), call(lambda: getattr(o, code)), 'ValueError',
+    # ---- codeword + extra bits: read stops after the codeword, whole-bitstring views refuse -----------
+    ice = f'{code}:codeword+extra'
+    for k, extra in enumerate(('0', '1', '10')):
+        s = mkobj(STREAMS[(v + k) % 2], cw + extra)
+        j.rejects('property-extra', ice, (code, nb, 'property-extra'), call(lambda: getattr(s, code)), 'ValueError',
                   accepted='extra-bits-accepted')
-        j.rejects('parse-extra', ice, (code, nb, 'parse-extra'), call(lambda: Dtype(code).parse(o)), 'ValueError',
-                  accepted='extra-bits-accepted')
-        s = mkobj(STREAMS[(v + len(extra)) % 2], cw + extra)
         j.value('read-extra', ice, (code, nb, 'read-extra'), call(lambda: (s.read(code), s.pos)), (v, n))
+        if small or (v + k) % 3 == 0:
+            o = mkobj(('Bits', 'BitArray')[(v + k) % 2], cw + extra)
+            j.rejects('property-extra', ice, (code, nb, 'property-extra'), call(lambda: getattr(o, code)),
+                      'ValueError', accepted='extra-bits-accepted')
+            j.rejects('parse-extra', ice, (code, nb, 'parse-extra'), call(lambda: Dtype(code).parse(o)), 'ValueError',
+                      accepted='extra-bits-accepted')
 
     # ---- every proper prefix is truncated ----------------------------------------------------
     z = cw.find('1')
-    boundary = {0, 1, n - 1, n - 2, z, z + 1}
+    boundary = {0, 1, n - 1, z, z + 1}
     cuts = c.get('cuts')
     if cuts is None:
         cuts = range(n)
@@ -299,29 +304,37 @@ def judge_int(ctx, c):
             continue
         t = cw[:cut]
         ict = f'{code}:' + ('no-bits' if cut == 0 else 'truncated')
-        o = mkobj(util.CLASS_NAMES[cut % 4], t)
+        cls = util.CLASS_NAMES[(cut + v) % 4]
+        o = mkobj(cls, t)
         j.rejects('property-truncated', ict, (code, nb, 'property-truncated'), call(lambda: getattr(o, code)),
                   'ValueError', accepted='truncated-accepted')
-        lead = '10' if (cut + v) % 2 else ''
-        s = mkobj(STREAMS[cut % 2], lead + t, len(lead))
+        s = o if cls in STREAMS else mkobj(STREAMS[cut % 2], t)
         got = call(lambda: s.read(code))
         j.rejects('read-truncated', ict, (code, nb, 'read-truncated'), got, 'ReadError',
-                  accepted='truncated-accepted', pos=(s.pos, len(lead)))
+                  accepted='truncated-accepted', pos=(s.pos, 0))
         if cut in boundary:
-            s2 = mkobj(STREAMS[(cut + 1) % 2], lead + t, len(lead))
+            # the same with bits before the read position, and the other reading routes
+            s2 = mkobj(STREAMS[(cut + 1) % 2], '10' + t, 2)
+            got = call(lambda: s2.read(code))
+            j.rejects('read-truncated', ict, (code, nb, 'read-truncated'), got, 'ReadError',
+                      accepted='truncated-accepted', pos=(s2.pos, 2))
             got = call(lambda: s2.peek(code))
             j.rejects('peek-truncated', ict, (code, nb, 'peek-truncated'), got, 'ReadError',
-                      accepted='truncated-accepted', pos=(s2.pos, len(lead)))
+                      accepted='truncated-accepted', pos=(s2.pos, 2))
             got = call(lambda: s2.readlist(code))
             j.rejects('readlist-truncated', ict, (code, nb, 'readlist-truncated'), got, 'ReadError',
-                      accepted='truncated-accepted', pos=(s2.pos, len(lead)))
-            got = call(lambda: s2.peeklist(code))
-            j.rejects('peeklist-truncated', ict, (code, nb, 'peeklist-truncated'), got, 'ReadError',
-                      accepted='truncated-accepted', pos=(s2.pos, len(lead)))
-            j.rejects('unpack-truncated', ict, (code, nb, 'unpack-truncated'), call(lambda: o.unpack(code)),
-                      ('ReadError', 'ValueError'), accepted='truncated-accepted')
-            j.rejects('parse-truncated', ict, (code, nb, 'parse-truncated'), call(lambda: Dtype(code).parse(o)),
-                      ('ValueError', 'ReadError'), accepted='truncated-accepted')
+                      accepted='truncated-accepted', pos=(s2.pos, 2))
+            which = (cut + v) % 3 if not (small or 'cuts' in c) else -1
+            if which in (-1, 0):
+                got = call(lambda: s2.peeklist(code))
+                j.rejects('peeklist-truncated', ict, (code, nb, 'peeklist-truncated'), got, 'ReadError',
+                          accepted='truncated-accepted', pos=(s2.pos, 2))
+            if which in (-1, 1):
+                j.rejects('unpack-truncated', ict, (code, nb, 'unpack-truncated'), call(lambda: o.unpack(code)),
+                          ('ReadError', 'ValueError'), accepted='truncated-accepted')
+            if which in (-1, 2):
+                j.rejects('parse-truncated', ict, (code, nb, 'parse-truncated'), call(lambda: Dtype(code).parse(o)),
+                          ('ValueError', 'ReadError'), accepted='truncated-accepted')
     ctx.state('int', code, n, p0)
 
 
